@@ -280,7 +280,11 @@ def _lower_expr(stmts, subst):
         if isinstance(s, ast.Assign) and len(s.targets) == 1 and isinstance(s.targets[0], ast.Name):
             v = _subst_names(clone(s.value), subst)
             if not _pure(v, allow_alloc=False):
-                raise NotInlinable("impure local")
+                # a value with side effects may still be moved into its *only* use when that
+                # use is the very next thing evaluated (the return expression that follows)
+                rest_loads = sum(1 for st2 in stmts[i + 1:] for x in ast.walk(st2) if isinstance(x, ast.Name) and x.id == s.targets[0].id and isinstance(x.ctx, ast.Load))
+                if not (rest_loads == 1 and i + 2 == len(stmts) and isinstance(stmts[i + 1], ast.Return)):
+                    raise NotInlinable("impure local")
             subst[s.targets[0].id] = v
             continue
         if isinstance(s, ast.Return):
@@ -421,6 +425,8 @@ def _resolve_helper(call, env):
     """env: dict(top=unknown top-level defs, methods=unknown methods of the
     caller's class, self_name)"""
     fn = call.func
+    if isinstance(fn, ast.Name) and fn.id in env.get("nested", {}):
+        return env["nested"][fn.id], False      # a local closure: its free variables are the caller's own
     if isinstance(fn, ast.Name) and fn.id in env["top"] and fn.id not in env["shadow"]:
         return env["top"][fn.id], False
     if isinstance(fn, ast.Attribute) and isinstance(fn.value, ast.Name) and env["self_name"] and fn.value.id == env["self_name"] and fn.attr in env["methods"]:
@@ -1673,6 +1679,31 @@ def _drop_self_assigns(fnode):
                     block.append(ast.copy_location(ast.Pass(), s_))
 
 
+def _ifexp_assign_to_if(fnode, unknown, cnt):
+    """u, v = (a, b) if c else (p, q)   /   u = a if c else p   (u unknown)
+       ->  if c: u, v = a, b  else: u, v = p, q"""
+    for block in _all_blocks(fnode):
+        for i, S in enumerate(block):
+            if not (isinstance(S, ast.Assign) and len(S.targets) == 1 and isinstance(S.value, ast.IfExp)):
+                continue
+            tn = _names(S.targets[0], ast.Store)
+            if not tn or not (tn & unknown) or not all(isinstance(x, (ast.Name, ast.Tuple, ast.List)) for x in ast.walk(S.targets[0]) if isinstance(x, ast.expr) and not isinstance(x, ast.expr_context)):
+                continue
+            a = ast.Assign(targets=[clone(S.targets[0])], value=S.value.body, type_comment=None)
+            b = ast.Assign(targets=[clone(S.targets[0])], value=S.value.orelse, type_comment=None)
+            new = ast.If(test=S.value.test, body=[a], orelse=[b])
+            for x in (a, b, new):
+                ast.copy_location(x, S)
+            if hasattr(S, "_inl"):
+                a._inl = b._inl = S._inl
+            a._inl = getattr(a, "_inl", ("ifexp", getattr(S, "lineno", 0)))
+            b._inl = getattr(b, "_inl", ("ifexp", getattr(S, "lineno", 0)))
+            block[i] = new
+            cnt.stats["ifexp_assigns"] = cnt.stats.get("ifexp_assigns", 0) + 1
+            return True
+    return False
+
+
 def _split_ranges(fnode, unknown, cnt):
     """an unknown local that is rebound several times in one straight-line
     block (e.g. the same helper inlined twice) is split into one variable per
@@ -1974,6 +2005,8 @@ def _normalize_locals(fnode, known_locals, self_name, cnt, ref_defs=None):
             return
         if _unroll_literal_loops(fnode, unknown, cnt):
             continue
+        if _ifexp_assign_to_if(fnode, unknown, cnt):
+            continue
         if _split_ranges(fnode, unknown, cnt):
             continue
         if _sink_after_if(fnode, unknown, cnt):
@@ -2266,6 +2299,9 @@ def _record_idiom(fnode, names, cnt):
 
 
 def _literalish(v):
+    # np.finfo(float): a pure library call whose value never changes
+    if isinstance(v, ast.Call) and ast.unparse(v) in ("np.finfo(float)", "numpy.finfo(float)", "np.finfo(np.float64)"):
+        return True
     for n in ast.walk(v):
         if isinstance(n, (ast.Call, ast.Lambda, ast.ListComp, ast.SetComp, ast.DictComp, ast.GeneratorExp, ast.Await, ast.Yield, ast.NamedExpr, ast.Starred)):
             return False
@@ -2531,6 +2567,11 @@ def normalize_module(tree, modname):
                         yield node.name, it
 
     if unknown_glob:
+        for k_, st_ in enumerate(tree.body):
+            if isinstance(st_, ast.Assign) and not (len(st_.targets) == 1 and isinstance(st_.targets[0], ast.Name) and st_.targets[0].id in unknown_glob):
+                if any(isinstance(n, ast.Name) and isinstance(n.ctx, ast.Load) and n.id in unknown_glob for n in ast.walk(st_.value)):
+                    st_.value = _subst_names(st_.value, unknown_glob)
+                    cnt.stats["globals_substituted"] += 1
         for cname, f in all_functions():
             local = _names(f, ast.Store) | {a.arg for a in f.args.args}
             sub = {g: val for g, val in unknown_glob.items() if g not in local}
@@ -2542,14 +2583,26 @@ def normalize_module(tree, modname):
                 new_body = [_subst_names(s, sub) for s in f.body]
                 f.body = new_body
                 cnt.stats["globals_substituted"] += len(hit)
-    if unknown_top or any(unknown_meth.values()):
+    has_nested = any(isinstance(st_, ast.FunctionDef) for _c, f_ in all_functions() for st_ in f_.body)
+    if unknown_top or any(unknown_meth.values()) or has_nested:
         # helpers first (so that helper-in-helper chains collapse), then the rest
         order = sorted(all_functions(), key=lambda cf: 0 if ((cf[0] is None and cf[1].name in unknown_top) or (cf[0] is not None and cf[1].name in unknown_meth.get(cf[0], {}))) else 1)
         for cname, f in order:
             self_name = None
             if cname is not None and f.args.args and not any(isinstance(d, ast.Name) and d.id == "staticmethod" for d in f.decorator_list):
                 self_name = f.args.args[0].arg
+            nested = {}
+            for st_ in f.body:
+                if isinstance(st_, ast.FunctionDef) and not st_.decorator_list:
+                    # bound once, never rebound, only ever called
+                    nm = st_.name
+                    n_store = sum(1 for x in ast.walk(f) if (isinstance(x, ast.Name) and x.id == nm and isinstance(x.ctx, ast.Store)) or (isinstance(x, ast.FunctionDef) and x.name == nm and x is not st_))
+                    loads = [x for x in ast.walk(f) if isinstance(x, ast.Name) and x.id == nm and isinstance(x.ctx, ast.Load)]
+                    called = [x for x in ast.walk(f) if isinstance(x, ast.Call) and isinstance(x.func, ast.Name) and x.func.id == nm]
+                    if n_store == 0 and loads and len(loads) == len(called) and not any(isinstance(x, (ast.Nonlocal, ast.Global)) for x in ast.walk(st_)):
+                        nested[nm] = st_
             env = {
+                "nested": nested,
                 "top": unknown_top,
                 "methods": unknown_meth.get(cname, {}) if cname else {},
                 "self_name": self_name,
@@ -2557,6 +2610,9 @@ def normalize_module(tree, modname):
                 "shadow": _names(f, ast.Store) | {a.arg for a in f.args.args},
             }
             _inline_in_function(f, env, cnt)
+            for nm, st_ in nested.items():
+                if not any(isinstance(x, ast.Name) and x.id == nm for x in ast.walk(f)) and st_ in f.body:
+                    f.body.remove(st_)
     # helpers whose every call was inlined are dead code now: drop them, so
     # that whole-program scans do not see the same statements twice
     if cnt.stats["helpers_inlined"] or cnt.stats["expr_helpers_inlined"]:
